@@ -29,6 +29,13 @@ Theorem C10_chunks_full : forall (A : Type) (k : nat) (l : list A),
 Proof. exact @chunks_full. Qed.
 Print Assumptions C10_chunks_full.
 
+(* the function is called exactly ceil(len / k) times on a non-empty batch *)
+Theorem C10_chunks_count : forall (A : Type) (k : nat) (l : list A),
+  1 <= k -> l <> [] ->
+  (length (chunks k l) - 1) * k < length l <= length (chunks k l) * k.
+Proof. exact @chunks_count. Qed.
+Print Assumptions C10_chunks_count.
+
 (* the pieces handed to the pool have exactly numpy's sizes: the first (len mod p) of len/p + 1,
    the remaining ones of len/p; in particular the work is balanced to within one point *)
 Theorem C10_split_shape : forall (A : Type) (p : nat) (l : list A),
